@@ -153,6 +153,16 @@ CHECKS = {
         note="External programs are /bin/sh scripts; zero-command jobs and duplicate command names are outside the claim.",
         technique="exhaustive enumeration of access orders + fault-position enumeration over generated job specifications with an external-marker oracle",
     ),
+    "C18": dict(
+        category="fault_enumeration",
+        text="Generated histories of 2-4 real jobmap runs (every job a _molli_run launch of a /bin/sh script that reads a per-item plan - ok / fail / ok on the n-th attempt / omit "
+             "the return file - and bumps a per-item execution counter) over small molecule and conformer libraries, with argument changes (new hash), pre-populated and foreign "
+             "destination keys, cache deletion / pollution with another input's output, fresh destinations on an old cache, strict and stdout-only post-processors, single and "
+             "vectorised jobs. A model of (destination, cache, counters) predicts after every run exactly which units execute and exactly what the destination holds.",
+        design_ref="DESIGN.md section 5, C18",
+        note="jobmap_sge (needs qsub) and worker() are not exercised; success = all commands exit 0 and the return file exists.",
+        technique="stateful model-based testing of run histories with scripted per-item faults and externally observed execution counters",
+    ),
     "C02": dict(
         category="exploration",
         text="Bounded-exhaustive (all op sequences up to length 4/5 over a 14-letter alphabet on two raw UKVFile handles) plus random "
